@@ -81,6 +81,18 @@ def compose_task(task):
     rng = random.Random(task['seed'])
     res = dict(name='compose-%d' % task['seed'], violations=[], inconclusive=[], harness_errors=[], n=0, accepted=0)
     PRE = "int g(int v) { return v; }\nint g(int a, int b) { return a; }\nint f() { return 1; }\nint @f() { return 1; }\nint @g(int v) { return v; }\nint !f() { return 1; }\nint !h() { return 1; }\nint[] a = [1, 2];\n"
+    ginits = ['1 + f()', '[f(), 2][0]', '(f())', '-f()', 'a[f()]', 'f() is byte', 'g(f())', 'g(1, f())', '1 ?? 2', '(1 ?? 2) + 1', '@f()', '1 * !f()']
+    for gi in ginits:
+        for form in ('int q = %s;', 'int q[%s];', 'const int q = %s;', 'int[] q = [1, %s];'):
+            src = PRE + (form % gi) + '\nempty fn(int x) { }\n'
+            try:
+                H.parse(H.SourceCode.from_string(src))
+                got = True
+            except (ParserError, LexerError):
+                got = False
+            res['n'] += 1
+            if got:
+                res['violations'].append(dict(what='context rules: a global initialised with a call (or ??) is accepted', case=form % gi, replay=dict(type='parse', src=src, expected_accept=False)))
     for i in range(task['n']):
         t = gen_tree(rng, 3)
         fl = rng.choice(['', '@', '!'])
